@@ -125,6 +125,16 @@ CHECKS: dict[str, dict] = {
         "logs are validated against the lifecycle automaton.",
         design_ref="DESIGN.md 3 C10",
     ),
+    "C11": dict(
+        technique="TLA+ model of images, iterators, open handles, temp files and injected failures (ImageIter.tla) "
+        "explored by TLC; every edge and simulated deep behaviours replayed on real Block/Kitty/ITerm2 "
+        "images from file, PIL and loopback-URL sources; recorded histories validated by TLC",
+        text="TLC checks frame order/identity, tell(), handle and temp-file accounting, caller-image safety and "
+        "size-setting preservation over all histories of format/str/draw/iterate/seek/close/drop with one "
+        "injected conversion failure; the histories are executed on real images observing /proc/self/fd, "
+        "the file objects Pillow opened, the temp directory and every frame, and judged by TLC.",
+        design_ref="DESIGN.md 3 C11, notes/C11.md",
+    ),
     "C12": dict(
         technique="TLA+ statement-level model of query_terminal/read_tty and their callers against a virtual-time "
         "tty (Tty.tla) explored by TLC; every explored schedule replayed into the real functions on a "
